@@ -10,9 +10,22 @@
    A model failure is `panic` / `fuel` in the respective field.
 
    `c14 cert <kinds> <edges> <comps>` runs the verified checker `validOrder` on
-   components computed elsewhere (the implementation's): `valid=<0|1>`. -/
+   components computed elsewhere (the implementation's): `valid=<0|1>`.
+
+   `c14 tie <kinds> <true edges> <collected edges>` compares the dependency
+   structure a generated program is known to have with the reference graph the
+   type checker collected (same node numbering): `missing=<u>v,u>v,…|-> extra=<…>`
+   (`edgesMissing`; empty iff `edgesSubset`) and `out=` = `find_compilation_order`
+   on the *true* structure (what the property demands of the program).
+
+   `c14 lir <items>` runs the code generator's loop over the lowered item list:
+   items `;`-separated, each `<f|cN|cu>/<funcs>/<consts>` with comma-separated
+   positions (`u` = not in the list, `N` = position of the constant's drop
+   function): `lir=<ok:c,c,…|panic@k> ready=<0|1>` (run order of the initialisers, or the
+   number of items the loop survives; `ready` is the closed form `lirReady`). -/
 import Driver.Util
 import RotoV.Model.Tarjan
+import RotoV.Model.TarjanLir
 
 namespace Driver.C14
 open RotoV.Tarjan
@@ -37,6 +50,23 @@ def parseEdge (s : String) : Option (Nat × List Nat) :=
 
 def parseEdges (s : String) : Option (List (Nat × List Nat)) :=
   if s == "-" then some [] else ((s.splitOn ";").filter (· ≠ "")).mapM parseEdge
+
+def parseOptNats (s : String) : Option (List (Option Nat)) :=
+  if s.isEmpty then some []
+  else (s.splitOn ",").mapM fun w => if w == "u" then some none else w.toNat?.map some
+
+def parseLItem (s : String) : Option LItem :=
+  match s.splitOn "/" with
+  | [k, fs, cs] => do
+    let fs ← parseOptNats fs
+    let cs ← parseOptNats cs
+    if k == "f" then pure ⟨false, none, fs, cs⟩
+    else if k == "cu" then pure ⟨true, none, fs, cs⟩
+    else if k.startsWith "c" then do
+      let d ← (k.drop 1).toNat?
+      pure ⟨true, some d, fs, cs⟩
+    else none
+  | _ => none
 
 def showNats (l : List Nat) : String := ",".intercalate (l.map toString)
 
@@ -80,6 +110,31 @@ def handle (args : List String) : String :=
       let g : Graph := ⟨es, fun n => ks.getD n .other⟩
       if validOrder g cs then (if validScc g cs then "valid=1" else "valid=1-but-not-scc") else "valid=0"
     | _, _, _ => "bad-op"
+  | ["tie", kinds, tedges, iedges] =>
+    match kinds.toList.mapM parseKind, parseEdges tedges, parseEdges iedges with
+    | some ks, some te, some ie =>
+      let kind := fun n => ks.getD n .other
+      let t : Graph := ⟨te, kind⟩
+      let i : Graph := ⟨ie, kind⟩
+      let miss := edgesMissing t i
+      let missS := if miss.isEmpty then "-" else ",".intercalate (miss.map fun (u, v) => s!"{u}>{v}")
+      let outS := match findCompilationOrder t with
+        | .ok (.order _) => "ord"
+        | .ok (.recursive c) => s!"rec:{c}"
+        | .ok (.usesContext c) => s!"ctx:{c}"
+        | .error e => showFail e
+      let extra := edgesMissing i t
+      let extraS := if extra.isEmpty then "-" else ",".intercalate (extra.map fun (u, v) => s!"{u}>{v}")
+      s!"missing={missS} extra={extraS} subset={if edgesSubset t i then 1 else 0} out={outS}"
+    | _, _, _ => "bad-op"
+  | ["lir", items] =>
+    match ((items.splitOn ";").filter (· ≠ "")).mapM parseLItem with
+    | some its =>
+      let readyS := if lirReady its then " ready=1" else " ready=0"
+      match cgLir its with
+      | .ok st => "lir=ok:" ++ showNats (st.runs.map Prod.fst) ++ readyS
+      | .error _ => s!"lir=panic@{lSurvives its its.length}" ++ readyS
+    | none => "bad-op"
   | _ => "bad-op"
 
 end Driver.C14
